@@ -190,12 +190,12 @@ def check(prog, res, tier):
                 if not arg.segs:
                     ok = True
                     continue
-                sl = arg.segs[0]
-                data = [v for v in _locals_at(p, call) if isinstance(v, SeqV) and v.kind == 'bytes' and len(v.segs) == 1
-                        and isinstance(v.segs[0], Sl) and v.segs[0].src is sl.src
-                        and st.decide_eq0(v.segs[0].hi - sl.hi) is True and st.prove_ge0(sl.lo - v.segs[0].lo)]
-                for d in data:
-                    if st.decide_eq0(sl.lo - d.segs[0].lo - g.lin) is True:
+                # the argument must be data[cursor:] : find the slice operation that produced it
+                sev = [e for e in p.events if e.kind == 'slice' and e.func == dfi.short and first < e.seq < call.seq
+                       and (e.data['result'] is arg or seqops_eq(p, e.data['result'], arg))]
+                for e in sev[-1:]:
+                    lo, hi = e.data['lo'], e.data['hi']
+                    if hi is None and lo is not None and st.decide_eq0(Lin.of(lo) - g.lin) is True:
                         ok = True
             if not ok:
                 fails.append(Failure('the element parser is not handed message_data[cursor:] / the cursor does not advance '
@@ -317,6 +317,11 @@ def check(prog, res, tier):
         chk_exit.names = set()
         res.add(u.runs.judge('C08.f', f'{key.upper()} walk: leaving the loop through its condition means the whole field was consumed',
                              func_where(u.fi), 'while field_pointer < len(field_data)', chk_exit, rule=f'C08.f.exit.{key}'))
+
+
+def seqops_eq(p, a, b):
+    from .. import seqops
+    return isinstance(a, SeqV) and isinstance(b, SeqV) and seqops.seq_eq_structural(p.interp, a, b) is True
 
 
 def _sym_tags(p, sym):
